@@ -17,3 +17,5 @@ bad=[(o,r) for o,r in zip(ctx.obligations,res) if (o.expect=='unsat' and r['resu
 for o,r in bad[:40]:
     print(r['result'], o.name, o.where, {k:v for k,v in r.get('model',{}).items() if k.startswith('len_')}, r.get('reason'))
 print(len(bad),'bad')
+for o,r in bad[:6]:
+    if 'value_failure' in r: print('   FAIL', o.name, str(r['value_failure'])[:1200])
